@@ -250,6 +250,37 @@ fn w_assembly(ctx: &mut Ctx) {
         let dens = *rng.choose(&[0.1, 0.4, 1.0]);
         let a = gen::random_sparse(&mut rng, m, n, dens, 0.0, 0.3).to_csc();
         let comp = CompositeCone::<f64>::new(&cones);
+        // the two layouts describe ONE symmetric matrix: every logical entry (the t-th entry of P, of A, of an Hs
+        // block, of a sparse-expansion vector, of an auxiliary diagonal) sits at mirrored coordinates in them
+        {
+            let both = vkit::report::catch(std::panic::AssertUnwindSafe(|| (assemble_kkt(&p, &a, &comp, MatrixTriangle::Triu), assemble_kkt(&p, &a, &comp, MatrixTriangle::Tril))));
+            if let Ok(((ku, mu), (kl, ml))) = both {
+                ctx.eval(1);
+                let (cu, cl) = (coords(&ku), coords(&kl));
+                let mut lists: Vec<(String, &Vec<usize>, &Vec<usize>)> = vec![("P".into(), &mu.P, &ml.P), ("A".into(), &mu.A, &ml.A), ("Hsblocks".into(), &mu.Hsblocks, &ml.Hsblocks), ("diag_full".into(), &mu.diag_full, &ml.diag_full)];
+                for (ci, (su, sl)) in mu.sparse_maps.iter().zip(&ml.sparse_maps).enumerate() {
+                    for (vi, (vu, vl)) in su.iter().zip(sl).enumerate() {
+                        lists.push((format!("sparse_cone_{ci}_vector_{vi}"), vu, vl));
+                    }
+                }
+                'cmp: for (name, lu, ll) in lists {
+                    if lu.len() != ll.len() {
+                        ctx.violation("assembly:layouts_disagree", "assembly:layouts_disagree", wl, case, json!({"cones": problem::cones_json(&cones), "map": name, "lengths": [lu.len(), ll.len()]}));
+                        break 'cmp;
+                    }
+                    for t in 0..lu.len() {
+                        if lu[t] >= cu.len() || ll[t] >= cl.len() {
+                            continue;
+                        }
+                        let ((ru, cu_), (rl, cl_)) = (cu[lu[t]], cl[ll[t]]);
+                        if (ru, cu_) != (cl_, rl) {
+                            ctx.violation("assembly:layouts_disagree", "assembly:layouts_disagree", wl, case, json!({"cones": problem::cones_json(&cones), "map": name, "t": t, "triu_coord": [ru, cu_], "tril_coord": [rl, cl_]}));
+                            break 'cmp;
+                        }
+                    }
+                }
+            }
+        }
         for triu in [true, false] {
             let shape = if triu { MatrixTriangle::Triu } else { MatrixTriangle::Tril };
             let r = vkit::report::catch(std::panic::AssertUnwindSafe(|| assemble_kkt(&p, &a, &comp, shape)));
